@@ -1,0 +1,61 @@
+//go:build verif
+
+package server
+
+import (
+	"context"
+	"net"
+	"net/http"
+	"net/http/httputil"
+)
+
+// Verification hooks, compiled only with the "verif" build tag. They let a
+// deterministic simulator decide which goroutine takes the next step
+// (SimHook may park the caller), learn about created objects (SimNoteHook
+// never blocks) and replace the sockets used for proxied traffic (SimDial).
+// With every variable nil the behaviour is unchanged.
+
+var (
+	SimHook     func(point string, arg any)
+	SimNoteHook func(point string, arg any)
+	SimDial     func(ctx context.Context, network, addr string) (net.Conn, error)
+)
+
+func simYield(point string, arg any) {
+	if hook := SimHook; hook != nil {
+		hook(point, arg)
+	}
+}
+
+func simNote(point string, arg any) {
+	if hook := SimNoteHook; hook != nil {
+		hook(point, arg)
+	}
+}
+
+func simInstrumentProxy(handler http.Handler) {
+	if SimDial == nil {
+		return
+	}
+	if proxy, ok := handler.(*httputil.ReverseProxy); ok {
+		if transport, ok := proxy.Transport.(*http.Transport); ok {
+			transport.DialContext = SimDial
+		}
+	}
+}
+
+// SimHandler returns the full request handler chain without opening sockets.
+func (s *Server) SimHandler() http.Handler {
+	return s.buildHandler()
+}
+
+// SimHealthCheckTarget returns the target a health check reports to.
+func SimHealthCheckTarget(hc *HealthCheck) *Target {
+	target, _ := hc.consumer.(*Target)
+	return target
+}
+
+// SimLoadBalancerTargets returns the targets of a load balancer without locking.
+func SimLoadBalancerTargets(lb *LoadBalancer) []*Target {
+	return lb.all
+}
